@@ -45,7 +45,15 @@ PROPS["C01"] = {
                 bounds="text 0..=3 symbolic ASCII bytes; offset 0..15; byte order symbolic; unwind 9",
                 asserts="bytes and length == spec marshaller (u32 length, text, NUL)") for t in "so"] +
              [H("c01_size_%s" % t, "quick" if t in "u" else "thorough", timeout=900, cost=60, recursion_bounds=REC1, bounds=LEAF_BOUNDS,
-                asserts="serialized_size().size() == bytes the rules prescribe; num_fds == 0") for t in "yqutb"]),
+                asserts="serialized_size().size() == bytes the rules prescribe; num_fds == 0") for t in "yqutb"] +
+             [H("c01_enc_a%s_p%d_k%d" % (t, p, k), "quick" if (t, p, k) in (("t", 4, 1), ("y", 3, 2)) else "thorough", timeout=2400, cost=400, recursion_bounds=REC1, mem_gb=16,
+                bounds="array a%s of %d symbolic element(s) at message offset %d, byte order symbolic" % (t, k, p),
+                asserts="bytes and length == spec marshaller (aligned u32 byte length excluding first-element padding, element padding even when empty, elements)")
+              for t in "yqut" for p in (0, 3, 4) for k in (0, 1, 2)] +
+             [H(n, "thorough", timeout=2400, cost=400, recursion_bounds=REC1, mem_gb=16,
+                bounds="array `ah` of two descriptors (same or distinct, symbolic), byte order symbolic, offset as named; dup(2) stubbed",
+                asserts="indices are u32 positions in the attached list in message byte order; duplicates share one slot; attached count")
+              for n in ["c01_enc_ah_p0", "c01_enc_ah_p2"]]),
         dict(ZV_INCRATE, harnesses=[
             H("c01_padding_kernel", "quick", timeout=300, cost=10, bounds="value: every usize; align in {1,2,4,8}",
               asserts="padding_for_n_bytes(value, align) == (-value) mod align"),
@@ -95,7 +103,11 @@ PROPS["C03"] = {
                 asserts="Ok iff the spec reader accepts (zero padding, length inside buffer, NUL terminator, no interior NUL, UTF-8, path grammar); equal text and consumed count") for t in "so" for p in range(4)] +
              [H(n, "quick" if n == "c03_dyn_o_p0" else "thorough", timeout=1500, cost=200, recursion_bounds=REC1, mem_gb=14,
                 bounds="Value target (ValueSeed path used for every variant payload), 8 symbolic bytes, length symbolic, byte order symbolic",
-                asserts="Ok iff the spec reader accepts, including object-path grammar; text borrowed from the input") for n in ["c03_dyn_o_p0", "c03_dyn_o_p2", "c03_dyn_s_p0"]]),
+                asserts="Ok iff the spec reader accepts, including object-path grammar; text borrowed from the input") for n in ["c03_dyn_o_p0", "c03_dyn_o_p2", "c03_dyn_s_p0"]] +
+             [H(n, "quick" if n == "c03_dec_au_p0" else "thorough", timeout=2400, cost=400, recursion_bounds=REC1, mem_gb=16,
+                bounds="array of fixed-size elements on 6..16 symbolic bytes, length symbolic, offset as named, byte order symbolic",
+                asserts="Ok iff zero padding, length inside buffer and on an element boundary; equal count, elements, consumed") for n in
+              ["c03_dec_ay_p0", "c03_dec_ay_p3", "c03_dec_aq_p0", "c03_dec_au_p0", "c03_dec_au_p2", "c03_dec_at_p0", "c03_dec_at_p4"]]),
     ],
 }
 
@@ -132,6 +144,10 @@ PROPS["C05"] = {
     "level_text": "Bounded model checking of the GVariant framing-offset kernels with fully symbolic sizes (the 255/65535 thresholds are decided symbolically).",
     "level_note": "kernel level only",
     "groups": [
+        dict(ZV_GV, harnesses=
+             [H("c05_enc_%s" % t, "quick" if t in ("u", "ms") else "thorough", timeout=2400, cost=300, recursion_bounds=REC1, mem_gb=16,
+                bounds="GVariant; value symbolic (text 0..=3 ASCII bytes, maybe present/absent symbolic); offset 0..15; byte order symbolic",
+                asserts="bytes and length == GVariant specification layout") for t in ["y", "b", "q", "u", "t", "d", "mu", "mt", "s", "ms"]]),
         dict(ZV_INCRATE_GV, harnesses=[
             H("c05_offset_size_selection", "quick", timeout=600, cost=10, bounds="len <= 2^62, n <= 2^58 symbolic",
               asserts="for_bare_container == smallest w in {1,2,4,8} with len + n*w <= 2^(8w)-1"),
@@ -157,6 +173,21 @@ PROPS["C07"] = {
         H("c07_depths_step", timeout=900, cost=120,
           bounds="gvariant build (maybe counter included): every counter state, one step of each kind",
           asserts="as above, including inc_maybe/dec_maybe"),
+    ])],
+}
+
+# ------------------------------------------------------------------ C08
+PROPS["C08"] = {
+    "claimed": False,
+    "bounds": "three symbolic numeric leaf values (any of y b n q i u x t d with any payload, NaN and signed zeros included)",
+    "outside": "strings, containers, nested values, OwnedValue, conversions other than u32/i64/f64",
+    "assumptions": [FMT_STUB, FORGET, "hashing is observed through a deterministic FNV-1a Hasher (Hash must be a function of the bytes fed to the hasher)"],
+    "level_text": "Bounded model checking of Value's PartialEq/Ord/Hash/try_clone/value_signature on symbolic numeric leaves.",
+    "level_note": "numeric leaves only",
+    "groups": [dict(ZV, harnesses=[
+        H("c08_leaf_laws", timeout=2400, cost=600, mem_gb=16, bounds="3 symbolic numeric leaves", asserts="== equivalence (NaN-free operands), cmp total order for all values incl. NaN, cmp/== consistency, equal => equal hash"),
+        H("c08_leaf_clone_signature", timeout=2400, cost=600, mem_gb=16, bounds="1 symbolic numeric leaf; u32/i64/f64 conversions", asserts="try_clone preserves == and signature; T -> Value -> T identity"),
+        H("c08_leaf_laws_nan_witness", timeout=900, cost=60, role="witness", bounds="F64(NaN), any NaN payload", asserts="reflexivity and cmp/== consistency (listed finding D7)"),
     ])],
 }
 
@@ -205,6 +236,12 @@ PROPS["C15"] = {
                   "for all 2^32 states, that the serial is non-zero, is the counter value (zero skipped), the counter advances exactly, and consecutive serials differ - "
                   "including the wrap-around boundary no test reaches.",
     "level_note": "sequential step facts for every state; thread interleavings rest on the atomic-RMW axiom listed in assumptions",
+    "source_invariants": [{
+        "file": "zbus/src/message/header.rs", "token": r"SERIAL_NUM",
+        "allowed": r"SERIAL_NUM\.fetch_add\(1, Relaxed\)|^static SERIAL_NUM: AtomicU32 = AtomicU32::new\(0\);",
+        "why": "the thread-safety part of the claim assumes the process-wide counter is touched only by atomic fetch_add(1); "
+               "another access pattern (load/store/compare_exchange) needs an interleaving argument this technique cannot give",
+    }],
     "groups": [dict(ZB_INCRATE, in_crate_file="zbus_header.rs", harnesses=[
         H("c15_serial_step", timeout=1500, cost=60, bounds="counter state: every u32 (incl. 0 and u32::MAX); two consecutive PrimaryHeader::new calls",
           asserts="serial != 0; serial == c (or 1 when c == 0); counter advances exactly; consecutive serials differ"),
@@ -239,8 +276,8 @@ PROPS["PROBE11"] = {"claimed": False, "groups": [dict(ZV, harnesses=[
 PROPS["PROBE12"] = {"claimed": False, "groups": [dict(ZB_INCRATE, in_crate_file="zbus_address.rs", harnesses=[
     H("c23_unix_path_is_decoded", timeout=1500, mem_gb=16)])]}
 PROPS["PROBE8"] = {"claimed": False, "groups": [dict(ZV_INCRATE, harnesses=[
-    H("c07_site_ser_struct", timeout=1200), H("c07_site_ser_array", timeout=1200),
-    H("c07_site_de_struct", timeout=1200), H("c07_site_de_array", timeout=1200)])]}
+    H("c07_site_de_variant", timeout=2400, mem_gb=20), H("c07_site_ser_struct", timeout=2400, mem_gb=20), H("c07_site_ser_array", timeout=2400, mem_gb=20),
+    H("c07_site_de_struct", timeout=2400, mem_gb=20), H("c07_site_de_array", timeout=2400, mem_gb=20)])]}
 PROPS["PROBE6"] = {"claimed": False, "groups": [{"crate": "kani/sig", "harnesses": [
     H("c06_validate_len1", timeout=1500, mem_gb=16), H("c06_tmpl_a_x", timeout=1500, mem_gb=16), H("c06_tmpl_struct_x", timeout=1500, mem_gb=16)]}]}
 
@@ -275,3 +312,7 @@ NOT_APPLICABLE = {
     "C38": "transport failures end pending work: about tasks and channels; only the per-read failure part is sequential (covered in C14 where claimed)",
     "C39": "drop / graceful shutdown: lifetime of Arcs across tasks, peer-visible close, executor draining",
 }
+PROPS["PROBE13"] = {"claimed": False, "groups": [dict(ZB_INCRATE, in_crate_file="zbus_message.rs", harnesses=[
+    H("c21_path_namespace", timeout=1800, mem_gb=16), H("c21_exact_keys", timeout=1800, mem_gb=16)])]}
+PROPS["PROBE14"] = {"claimed": False, "groups": [dict(ZB_INCRATE, in_crate_file="zbus_header.rs", harnesses=[
+    H("c12_primary_header_total", timeout=3600, mem_gb=30, recursion_bounds=REC1)])]}
